@@ -113,13 +113,13 @@ func c04r1(c *core.Ctx) {
 		rp := relationIDsParam(registrar)
 		ok := false
 		core.InspectNoLits(registrar.Body, func(n ast.Node) bool {
-			rs, isR := n.(*ast.RangeStmt)
-			if !isR {
+			src, body, isL := elementLoop(m, n)
+			if !isL || body == nil {
 				return true
 			}
-			if id, isID := ast.Unparen(rs.X).(*ast.Ident); isID && m.Info.ObjectOf(id) == rp {
+			if id, isID := ast.Unparen(src).(*ast.Ident); isID && m.Info.ObjectOf(id) == rp {
 				hasBranch := false
-				ast.Inspect(rs.Body, func(x ast.Node) bool {
+				ast.Inspect(body, func(x ast.Node) bool {
 					switch x.(type) {
 					case *ast.IfStmt, *ast.BranchStmt, *ast.ReturnStmt:
 						hasBranch = true
@@ -512,12 +512,30 @@ func summarizePurge(c *core.Ctx, f *core.Func) *purgeSummary {
 			}
 		}
 	}
+	// helpers that are handed a container (a map, or a table-id list): their bodies are read as if written at the call
+	// site, with the parameters standing for the caller's actuals (core.Model.WithCall)
+	containerHelper := func(cal *core.Func) bool {
+		if cal == nil || cal.Body == nil || cal.Sig == nil || cal == f {
+			return false
+		}
+		for i := 0; i < cal.Sig.Params().Len(); i++ {
+			t := cal.Sig.Params().At(i).Type()
+			if p, ok := t.(*types.Pointer); ok {
+				t = p.Elem()
+			}
+			if _, isMap := t.Underlying().(*types.Map); isMap || core.NamedName(t) == "tableIDs" {
+				return true
+			}
+		}
+		return false
+	}
+	cur := f // the function whose body is being read (f itself, or a container helper under WithCall)
 	isRemoveOfTable := func(call *ast.CallExpr) (recv ast.Expr, ok bool) {
 		k, cal, _ := m.Callee(call)
 		if k != core.CallStatic || cal.Recv != "tableIDs" || len(call.Args) != 1 || !returnsBool(cal) {
 			return nil, false
 		}
-		if fieldKeyDeep(m, f, call.Args[0], 0) != "table.id" {
+		if fieldKeyDeep(m, cur, call.Args[0], 0) != "table.id" && fieldKeyOf(m, call.Args[0]) != "table.id" {
 			return nil, false
 		}
 		if sel, ok := ast.Unparen(call.Fun).(*ast.SelectorExpr); ok {
@@ -525,64 +543,52 @@ func summarizePurge(c *core.Ctx, f *core.Func) *purgeSummary {
 		}
 		return nil, false
 	}
-	core.InspectNoLits(f.Body, func(n ast.Node) bool {
-		switch x := n.(type) {
-		case *ast.AssignStmt:
-			for i, l := range x.Lhs {
-				if fieldKeyOf(m, l) == "table.isFree" && i < len(x.Rhs) {
-					if tv, ok := m.Info.Types[x.Rhs[i]]; ok && tv.Value != nil && tv.Value.String() == "true" {
-						ps.setsFree = true
-					}
-				}
-				// container replaced by an empty map
-				for _, ct := range perTarget {
-					k := fieldKeyOf(m, l)
-					if ix, ok := ast.Unparen(l).(*ast.IndexExpr); ok {
-						k = fieldKeyOf(m, ix.X)
-					}
-					if k == ct && i < len(x.Rhs) {
-						if cl, ok := ast.Unparen(x.Rhs[i]).(*ast.CompositeLit); ok && len(cl.Elts) == 0 {
-							ps.clearAll[ct] = true
-						}
-					}
-				}
+	// callsIn visits the calls in root and, through container helpers, the calls in their bodies; site is the call in
+	// root that led there (the call itself at the top level), g the function that contains the call.
+	var callsIn func(g *core.Func, root ast.Node, site *ast.CallExpr, visit func(g *core.Func, call, site *ast.CallExpr))
+	callsIn = func(g *core.Func, root ast.Node, site *ast.CallExpr, visit func(g *core.Func, call, site *ast.CallExpr)) {
+		ast.Inspect(root, func(y ast.Node) bool {
+			if _, isLit := y.(*ast.FuncLit); isLit {
+				return false
 			}
-		case *ast.CallExpr:
-			if recv, ok := isRemoveOfTable(x); ok {
-				switch fieldKeyOf(m, recv) {
-				case "archetype.tables":
-					ps.active = true
-				case "cacheEntry.tables":
-					ps.cache = true
-				}
+			call, ok := y.(*ast.CallExpr)
+			if !ok {
+				return true
 			}
-			if m.IsBuiltin(x, "delete") && len(x.Args) == 2 {
-				k := fieldKeyOf(m, x.Args[0])
-				if ix, ok := ast.Unparen(x.Args[0]).(*ast.IndexExpr); ok {
-					k = fieldKeyOf(m, ix.X)
-				}
-				for _, ct := range perTarget {
-					// keyed by the target's id: `e.id` of an entity, or a value of the entity-id type
-					if k == ct && (fieldKeyOf(m, x.Args[1]) == "Entity.id" || core.NamedName(m.Info.TypeOf(x.Args[1])) == "entityID") {
-						ps.target[ct] = true
-					}
-				}
+			st := site
+			if st == nil {
+				st = call
 			}
-		case *ast.RangeStmt:
-			// loops over a per-target container removing the table from every value
-			ck := fieldKeyOf(m, x.X)
+			saved := cur
+			cur = g
+			visit(g, call, st)
+			cur = saved
+			if _, cal, _ := m.Callee(call); containerHelper(cal) {
+				m.WithCall(cal, call, func() { callsIn(cal, cal.Body, st, visit) })
+			}
+			return true
+		})
+	}
+	sitePos := token.NoPos // position in f of the helper call under which the current body is read
+	var walk func(g *core.Func, root ast.Node)
+	walk = func(g *core.Func, root ast.Node) {
+		core.InspectNoLits(root, func(n ast.Node) bool {
+			cur = g
+			// loops over all entries of a per-target container (range or index form) removing the table from every value
 			for _, ct := range perTarget {
-				if ck != ct {
+				body, isAll := loopOverAll(m, n, ct)
+				if !isAll || body == nil {
 					continue
 				}
 				// inner: for _, v := range m { v.Remove(table.id) } (relationTables: two levels) or v.Remove directly (targetTables)
 				removed, broken := false, false
-				ast.Inspect(x.Body, func(y ast.Node) bool {
+				callsIn(g, body, nil, func(_ *core.Func, z, _ *ast.CallExpr) {
+					if _, ok := isRemoveOfTable(z); ok {
+						removed = true
+					}
+				})
+				ast.Inspect(body, func(y ast.Node) bool {
 					switch z := y.(type) {
-					case *ast.CallExpr:
-						if _, ok := isRemoveOfTable(z); ok {
-							removed = true
-						}
 					case *ast.BranchStmt:
 						if z.Tok == token.BREAK || z.Tok == token.GOTO {
 							broken = true
@@ -594,166 +600,225 @@ func summarizePurge(c *core.Ctx, f *core.Func) *purgeSummary {
 				})
 				if removed && !broken {
 					ps.all[ct] = true
-					if guardPos != token.NoPos && x.Pos() > guardPos {
+					at := n.Pos()
+					if sitePos != token.NoPos {
+						at = sitePos
+					}
+					if guardPos != token.NoPos && at > guardPos {
 						ps.allCond[ct] = guardText
 					}
 				}
 			}
-			// loops over the table's columns purging by column target
-			if fieldKeyOf(m, x.X) == "table.columns" || fieldKeyOf(m, x.X) == "table.ids" {
-				loopVar := ""
-				if id, ok := x.Key.(*ast.Ident); ok {
-					loopVar = id.Name
+			switch x := n.(type) {
+			case *ast.AssignStmt:
+				for i, l := range x.Lhs {
+					if fieldKeyOf(m, l) == "table.isFree" && i < len(x.Rhs) {
+						if tv, ok := m.Info.Types[x.Rhs[i]]; ok && tv.Value != nil && tv.Value.String() == "true" {
+							ps.setsFree = true
+						}
+					}
+					// container replaced by an empty map
+					for _, ct := range perTarget {
+						k := fieldKeyOf(m, l)
+						if ix, ok := ast.Unparen(l).(*ast.IndexExpr); ok {
+							k = fieldKeyOf(m, ix.X)
+						}
+						if k == ct && i < len(x.Rhs) {
+							if cl, ok := ast.Unparen(x.Rhs[i]).(*ast.CompositeLit); ok && len(cl.Elts) == 0 {
+								ps.clearAll[ct] = true
+							}
+						}
+					}
 				}
-				ast.Inspect(x.Body, func(y ast.Node) bool {
-					call, ok := y.(*ast.CallExpr)
-					if !ok {
-						return true
+			case *ast.CallExpr:
+				if _, cal, _ := m.Callee(x); containerHelper(cal) {
+					savedSite := sitePos
+					if sitePos == token.NoPos {
+						sitePos = x.Pos()
 					}
-					recv, ok := isRemoveOfTable(call)
-					if !ok {
-						return true
+					m.WithCall(cal, x, func() { walk(cal, cal.Body) })
+					sitePos = savedSite
+					cur = g
+				}
+				if recv, ok := isRemoveOfTable(x); ok {
+					switch fieldKeyOf(m, recv) {
+					case "archetype.tables":
+						ps.active = true
+					case "cacheEntry.tables":
+						ps.cache = true
 					}
-					// "for every relation column": inside the loop the purge may depend only on the column being a
-					// relation column and on its own lookup succeeding; any other condition (a skipped target, a
-					// skipped column) leaves entries behind
-					{
-						// conditions the call depends on inside the loop body: those of the enclosing ifs and those of
-						// earlier ifs whose branch leaves the iteration
-						var conds []ast.Expr
-						leaves := func(l []ast.Stmt) bool {
-							if len(l) == 0 {
+				}
+				if m.IsBuiltin(x, "delete") && len(x.Args) == 2 {
+					k := fieldKeyOf(m, x.Args[0])
+					if ix, ok := ast.Unparen(x.Args[0]).(*ast.IndexExpr); ok {
+						k = fieldKeyOf(m, ix.X)
+					}
+					for _, ct := range perTarget {
+						// keyed by the target's id: `e.id` of an entity, or a value of the entity-id type
+						if k == ct && (fieldKeyOf(m, x.Args[1]) == "Entity.id" || core.NamedName(m.Info.TypeOf(x.Args[1])) == "entityID") {
+							ps.target[ct] = true
+						}
+					}
+				}
+			case *ast.RangeStmt:
+				// loops over the table's columns purging by column target
+				if fieldKeyOf(m, x.X) == "table.columns" || fieldKeyOf(m, x.X) == "table.ids" {
+					loopVar := ""
+					if id, ok := x.Key.(*ast.Ident); ok {
+						loopVar = id.Name
+					}
+					callsIn(g, x.Body, nil, func(g2 *core.Func, call, site *ast.CallExpr) {
+						recv, ok := isRemoveOfTable(call)
+						if !ok {
+							return
+						}
+						// "for every relation column": inside the loop the purge may depend only on the column being a
+						// relation column and on its own lookup succeeding; any other condition (a skipped target, a
+						// skipped column) leaves entries behind
+						{
+							// conditions the call depends on inside the loop body: those of the enclosing ifs and those of
+							// earlier ifs whose branch leaves the iteration
+							var conds []ast.Expr
+							leaves := func(l []ast.Stmt) bool {
+								if len(l) == 0 {
+									return false
+								}
+								switch b := l[len(l)-1].(type) {
+								case *ast.BranchStmt:
+									return b.Tok == token.CONTINUE || b.Tok == token.BREAK
+								case *ast.ReturnStmt:
+									return true
+								}
 								return false
 							}
-							switch b := l[len(l)-1].(type) {
-							case *ast.BranchStmt:
-								return b.Tok == token.CONTINUE || b.Tok == token.BREAK
-							case *ast.ReturnStmt:
-								return true
-							}
-							return false
-						}
-						inside := func(n ast.Node) bool { return n != nil && n.Pos() <= call.Pos() && call.End() <= n.End() }
-						var walkList func(l []ast.Stmt)
-						walkList = func(l []ast.Stmt) {
-							for _, st := range l {
-								is, isIf := st.(*ast.IfStmt)
-								if !inside(st) {
-									if isIf && (leaves(is.Body.List) || (is.Else != nil && func() bool { eb, ok := is.Else.(*ast.BlockStmt); return ok && leaves(eb.List) }())) {
-										conds = append(conds, is.Cond)
+							at := site // in the loop body the position that counts is that of the (helper) call
+							inside := func(n ast.Node) bool { return n != nil && n.Pos() <= at.Pos() && at.End() <= n.End() }
+							var walkList func(l []ast.Stmt)
+							walkList = func(l []ast.Stmt) {
+								for _, st := range l {
+									is, isIf := st.(*ast.IfStmt)
+									if !inside(st) {
+										if isIf && (leaves(is.Body.List) || (is.Else != nil && func() bool { eb, ok := is.Else.(*ast.BlockStmt); return ok && leaves(eb.List) }())) {
+											conds = append(conds, is.Cond)
+										}
+										continue
 									}
-									continue
-								}
-								switch y := st.(type) {
-								case *ast.IfStmt:
-									conds = append(conds, y.Cond)
-									if inside(y.Body) {
-										walkList(y.Body.List)
-									} else if eb, ok := y.Else.(*ast.BlockStmt); ok && inside(eb) {
-										walkList(eb.List)
-									} else if ei, ok := y.Else.(*ast.IfStmt); ok && inside(ei) {
-										walkList([]ast.Stmt{ei})
-									}
-								case *ast.BlockStmt:
-									walkList(y.List)
-								case *ast.ForStmt:
-									if y.Cond != nil {
+									switch y := st.(type) {
+									case *ast.IfStmt:
 										conds = append(conds, y.Cond)
-									}
-									walkList(y.Body.List)
-								case *ast.RangeStmt:
-									walkList(y.Body.List)
-								case *ast.SwitchStmt:
-									if y.Tag != nil {
-										conds = append(conds, y.Tag)
-									}
-									for _, cc := range y.Body.List {
-										if cl, ok := cc.(*ast.CaseClause); ok && inside(cl) {
-											conds = append(conds, cl.List...)
-											walkList(cl.Body)
+										if inside(y.Body) {
+											walkList(y.Body.List)
+										} else if eb, ok := y.Else.(*ast.BlockStmt); ok && inside(eb) {
+											walkList(eb.List)
+										} else if ei, ok := y.Else.(*ast.IfStmt); ok && inside(ei) {
+											walkList([]ast.Stmt{ei})
+										}
+									case *ast.BlockStmt:
+										walkList(y.List)
+									case *ast.ForStmt:
+										if y.Cond != nil {
+											conds = append(conds, y.Cond)
+										}
+										walkList(y.Body.List)
+									case *ast.RangeStmt:
+										walkList(y.Body.List)
+									case *ast.SwitchStmt:
+										if y.Tag != nil {
+											conds = append(conds, y.Tag)
+										}
+										for _, cc := range y.Body.List {
+											if cl, ok := cc.(*ast.CaseClause); ok && inside(cl) {
+												conds = append(conds, cl.List...)
+												walkList(cl.Body)
+											}
 										}
 									}
+									return
 								}
+							}
+							walkList(x.Body.List)
+							if g2 != g && g2.Body != nil {
+								// and inside the helper, the conditions around the removal itself
+								at = call
+								walkList(g2.Body.List)
+							}
+							fine := func(e ast.Expr) bool {
+								all := true
+								ast.Inspect(e, func(z ast.Node) bool {
+									switch w := z.(type) {
+									case *ast.Ident:
+										if w.Name == "ok" || w.Name == "found" || w.Name == "nil" {
+											return true
+										}
+										if tv, isV := m.Info.ObjectOf(w).(*types.Var); isV && !tv.IsField() {
+											// the column variable itself, the lookup result compared with nil
+											return true
+										}
+									case *ast.SelectorExpr:
+										if k := fieldKeyOf(m, w); k == "column.isRelation" || k == "archetype.isRelation" {
+											return false
+										}
+										all = false
+										return false
+									case *ast.CallExpr:
+										all = false
+										return false
+									}
+									return true
+								})
+								return all
+							}
+							extra := ""
+							for _, e := range conds {
+								if !fine(e) {
+									extra = m.ExprString(e)
+								}
+							}
+							if extra != "" {
 								return
 							}
 						}
-						walkList(x.Body.List)
-						fine := func(e ast.Expr) bool {
-							all := true
-							ast.Inspect(e, func(z ast.Node) bool {
-								switch w := z.(type) {
-								case *ast.Ident:
-									if w.Name == "ok" || w.Name == "found" || w.Name == "nil" {
-										return true
-									}
-									if tv, isV := m.Info.ObjectOf(w).(*types.Var); isV && !tv.IsField() {
-										// the column variable itself, the lookup result compared with nil
-										return true
-									}
-								case *ast.SelectorExpr:
-									if k := fieldKeyOf(m, w); k == "column.isRelation" || k == "archetype.isRelation" {
-										return false
-									}
-									all = false
-									return false
-								case *ast.CallExpr:
-									all = false
-									return false
+						// recv is a local defined from `a.<container>[...][column.target.id]` lookups
+						src := recv
+						if id, ok := ast.Unparen(recv).(*ast.Ident); ok {
+							if v, ok := m.Info.ObjectOf(id).(*types.Var); ok {
+								for _, d := range localDefsOf(m, g2, v) {
+									src = d
 								}
-								return true
-							})
-							return all
-						}
-						extra := ""
-						for _, e := range conds {
-							if !fine(e) {
-								extra = m.ExprString(e)
 							}
 						}
-						if extra != "" {
-							return true
+						ix, ok := ast.Unparen(src).(*ast.IndexExpr)
+						if !ok {
+							return
 						}
-					}
-					// recv is a local defined from `a.<container>[...][column.target.id]` lookups
-					src := recv
-					if id, ok := ast.Unparen(recv).(*ast.Ident); ok {
-						if v, ok := m.Info.ObjectOf(id).(*types.Var); ok {
-							for _, d := range localDefsOf(m, f, v) {
-								src = d
+						// indexed by the id of a column's / relation's target
+						byTarget := false
+						if isel, ok := ast.Unparen(m.StripConv(m.Inline(m.StripConv(ix.Index)))).(*ast.SelectorExpr); ok && fieldKeyOf(m, isel) == "Entity.id" {
+							for _, e := range exprChain(m, f, isel.X, 0) {
+								switch fieldKeyOf(m, e) {
+								case "column.target", "relationID.target":
+									byTarget = true
+								}
 							}
 						}
-					}
-					ix, ok := ast.Unparen(src).(*ast.IndexExpr)
-					if !ok {
-						return true
-					}
-					// indexed by the id of a column's / relation's target
-					byTarget := false
-					if isel, ok := ast.Unparen(m.StripConv(m.Inline(m.StripConv(ix.Index)))).(*ast.SelectorExpr); ok && fieldKeyOf(m, isel) == "Entity.id" {
-						for _, e := range exprChain(m, f, isel.X, 0) {
-							switch fieldKeyOf(m, e) {
-							case "column.target", "relationID.target":
-								byTarget = true
+						switch inner := ast.Unparen(m.Inline(ix.X)).(type) {
+						case *ast.IndexExpr:
+							// a.relationTables[i][target.id]: i must be the loop index over the columns
+							if fieldKeyOf(m, inner.X) == "archetype.relationTables" && byTarget && m.ExprString(inner.Index) == loopVar && loopVar != "" {
+								ps.cols["archetype.relationTables"] = true
+							}
+						default:
+							if fieldKeyOf(m, ix.X) == "archetypeData.targetTables" && byTarget {
+								ps.cols["archetypeData.targetTables"] = true
 							}
 						}
-					}
-					switch inner := ast.Unparen(ix.X).(type) {
-					case *ast.IndexExpr:
-						// a.relationTables[i][target.id]: i must be the loop index over the columns
-						if fieldKeyOf(m, inner.X) == "archetype.relationTables" && byTarget && m.ExprString(inner.Index) == loopVar && loopVar != "" {
-							ps.cols["archetype.relationTables"] = true
-						}
-					default:
-						if fieldKeyOf(m, ix.X) == "archetypeData.targetTables" && byTarget {
-							ps.cols["archetypeData.targetTables"] = true
-						}
-					}
-					return true
-				})
+					})
+				}
 			}
-		}
-		return true
-	})
+			return true
+		})
+	}
+	walk(f, f.Body)
 	return ps
 }
 
@@ -1515,16 +1580,16 @@ func columnIndexProvenance(m *core.Model, f *core.Func, e ast.Expr) string {
 		// loop variable over a per-column slice
 		why := ""
 		core.InspectNoLits(f.Body, func(n ast.Node) bool {
-			rs, ok := n.(*ast.RangeStmt)
-			if !ok || rs.Key == nil {
+			iv, over, _, ok := indexLoop(m, n)
+			if !ok {
 				return true
 			}
-			if id, ok := rs.Key.(*ast.Ident); ok && m.Info.ObjectOf(id) == v {
-				switch fieldKeyOf(m, rs.X) {
+			if iv == v {
+				switch fieldKeyOf(m, over) {
 				case "table.columns", "table.ids", "archetype.relationTables", "archetypeData.components", "archetypeData.isRelation", "archetypeData.itemSizes":
-					why = "loop index over " + fieldKeyOf(m, rs.X)
+					why = "loop index over " + fieldKeyOf(m, over)
 				}
-				if id2, ok := ast.Unparen(rs.X).(*ast.Ident); ok {
+				if id2, ok := ast.Unparen(over).(*ast.Ident); ok {
 					// range over a parameter/local holding the component list (newArchetype: components)
 					if v2, ok := m.Info.ObjectOf(id2).(*types.Var); ok {
 						if sl, ok := v2.Type().(*types.Slice); ok && core.NamedName(sl.Elem()) == "ID" {
